@@ -549,7 +549,7 @@ package sipsp
 //@   modifies *puri
 //@   loop 0 "for ; i < len(uri); i++"
 //@     invariant offs <= i && i <= len(uri)
-//@     invariant[C14,*] uriInv(uri, puri, state, offs, s, i, foundUser, passOffs, portNo)
+//@     invariant[C14,C10,*] uriInv(uri, puri, state, offs, s, i, foundUser, passOffs, portNo)
 //@     invariant[C10,*] portExact(uri, puri)
 //@     decreases len(uri) - i
 //@     cases int(state) 1 17
